@@ -640,8 +640,9 @@ func mineral(g *GlobalVarsMain, l *NitroSharedVars) {
 				l.DNH4UMS[zIndex] = 0
 
 			}
-			FN2oNit := (0.4*(g.WG[0][zIndex]/g.PORGES[zIndex]) - 1.04) / (g.WG[0][zIndex]/g.PORGES[zIndex] - 1.04) * 0.0016 //! Faktor N2O aus Nitrifikation
-			N2oNIT := (l.DNH4UMS[zIndex] + DTOTALN[zIndex] + DMINFOS[zIndex]) * FN2oNit                                     //! N2O emission aus Nitrifikation pro Zeitschritt (kg N/ha)
+			wfps := math.Min(g.WG[0][zIndex]/g.PORGES[zIndex], 1)                       // water filled pore space, at most saturated
+			FN2oNit := (0.4*wfps - 1.04) / (wfps - 1.04) * 0.0016                       //! Faktor N2O aus Nitrifikation
+			N2oNIT := (l.DNH4UMS[zIndex] + DTOTALN[zIndex] + DMINFOS[zIndex]) * FN2oNit //! N2O emission aus Nitrifikation pro Zeitschritt (kg N/ha)
 
 			// Mineralisationssumme => Quellterm ( dn(z) )
 			g.DN[zIndex] = DTOTALN[zIndex] + DMINFOS[zIndex] + l.DUMS[zIndex] - N2oNIT
@@ -680,8 +681,9 @@ func mineral(g *GlobalVarsMain, l *NitroSharedVars) {
 			g.UMS = g.UMS + l.DUMS[zIndex]
 
 			g.NH4UMS = g.NH4UMS + l.DNH4UMS[zIndex]
-			FN2oNit := (0.4*(g.WG[0][zIndex]/g.PORGES[zIndex]) - 1.04) / (g.WG[0][zIndex]/g.PORGES[zIndex] - 1.04) * 0.0016 //! Faktor N2O aus Nitrifikation
-			N2ONIT := l.DNH4UMS[zIndex] * FN2oNit                                                                           //! N2O emission aus Nitrifikation pro Zeitschritt (kg N/ha)
+			wfps := math.Min(g.WG[0][zIndex]/g.PORGES[zIndex], 1) // water filled pore space, at most saturated
+			FN2oNit := (0.4*wfps - 1.04) / (wfps - 1.04) * 0.0016 //! Faktor N2O aus Nitrifikation
+			N2ONIT := l.DNH4UMS[zIndex] * FN2oNit                 //! N2O emission aus Nitrifikation pro Zeitschritt (kg N/ha)
 			g.N2onitsum = g.N2onitsum + N2ONIT
 			g.N2onitDaily = N2ONIT
 			g.DN[zIndex] = l.DUMS[zIndex] - N2ONIT
